@@ -53,6 +53,9 @@ type Scenario struct {
 	Subs      []SubSpec   `json:"subs"`
 	Pubs      [][]PubCall `json:"pubs"`
 	Ctl       []CtlOp     `json:"ctl"`
+	// Ctl2: a second control task that only unsubscribes initial subscriptions the
+	// first one never touches, so that Unsub calls overlap each other
+	Ctl2 []CtlOp `json:"ctl2,omitempty"`
 }
 
 // H is the harness.
@@ -74,7 +77,7 @@ func (H) Decode(b []byte) (any, error) {
 // Describe implements core.Harness.
 func (H) Describe(sc any) string {
 	s := sc.(*Scenario)
-	return fmt.Sprintf("timeout=%v onTimeout=%v defbuf=%d subs=%+v pubs=%+v ctl=%+v", time.Duration(s.Timeout), s.OnTimeout, s.DefBuf, s.Subs, s.Pubs, s.Ctl)
+	return fmt.Sprintf("timeout=%v onTimeout=%v defbuf=%d subs=%+v pubs=%+v ctl=%+v ctl2=%+v", time.Duration(s.Timeout), s.OnTimeout, s.DefBuf, s.Subs, s.Pubs, s.Ctl, s.Ctl2)
 }
 
 var variants = []string{"Pub", "PubSlice", "PubWait", "PubSliceWait", "PubSync", "PubSliceSync"}
@@ -168,6 +171,29 @@ func (H) Generate(r *simrt.Rand, tier string) any {
 		}
 		s.Ctl = append(s.Ctl, op)
 	}
+	if len(s.Subs) >= 2 && r.Intn(3) == 0 {
+		// overlapping Unsub calls: the first control task keeps to the lower half of
+		// the initial subscriptions and never calls UnsubAll, the second takes the rest
+		half := len(s.Subs) / 2
+		for i := range s.Ctl {
+			switch s.Ctl[i].Op {
+			case "unsub":
+				s.Ctl[i].Target %= half
+				if s.Ctl[i].Target == only {
+					s.Ctl[i].Op = "unsubunknown"
+				}
+			case "unsuball", "sub", "subbuf":
+				s.Ctl[i].Op = "unsubnil"
+			}
+		}
+		for i := 0; i < 1+r.Intn(3); i++ {
+			t := half + r.Intn(len(s.Subs)-half)
+			if t == only {
+				continue
+			}
+			s.Ctl2 = append(s.Ctl2, CtlOp{Op: "unsub", Target: t, Delay: r.Intn(10)})
+		}
+	}
 	return s
 }
 
@@ -178,6 +204,7 @@ func (H) Shrink(sc any) []any {
 		c := *s
 		c.Subs = append([]SubSpec(nil), s.Subs...)
 		c.Ctl = append([]CtlOp(nil), s.Ctl...)
+		c.Ctl2 = append([]CtlOp(nil), s.Ctl2...)
 		c.Pubs = nil
 		for _, p := range s.Pubs {
 			c.Pubs = append(c.Pubs, append([]PubCall(nil), p...))
@@ -206,6 +233,11 @@ func (H) Shrink(sc any) []any {
 		c.Ctl = append(c.Ctl[:i], c.Ctl[i+1:]...)
 		out = append(out, c)
 	}
+	for i := len(s.Ctl2) - 1; i >= 0; i-- {
+		c := clone()
+		c.Ctl2 = append(c.Ctl2[:i], c.Ctl2[i+1:]...)
+		out = append(out, c)
+	}
 	// drop the last initial subscription if nothing refers to it
 	if n := len(s.Subs); n > 0 {
 		used := false
@@ -216,10 +248,13 @@ func (H) Shrink(sc any) []any {
 				}
 			}
 		}
-		for _, c := range s.Ctl {
+		for _, c := range append(append([]CtlOp(nil), s.Ctl...), s.Ctl2...) {
 			if c.Op == "sub" || c.Op == "subbuf" || (c.Op == "unsub" && c.Target >= n-1) {
 				used = true
 			}
+		}
+		if len(s.Ctl2) > 0 {
+			used = true
 		}
 		if !used {
 			c := clone()
@@ -303,14 +338,17 @@ const maxSubs = 16
 func token(p, c, e int) int { return 1000*(p+1) + 100*c + e + 1 }
 
 type run struct {
-	sc    *Scenario
-	ps    *chans.PubSub[int]
-	subs  [maxSubs]*subState
-	nsubs int
-	calls [][]callRec
-	ctl   []ctlRec
-	mu    sync.Mutex // real mutex: OnPubTimeout is invoked from several library goroutines
-	touts []delivery
+	sc       *Scenario
+	ps       *chans.PubSub[int]
+	subs     [maxSubs]*subState
+	nsubs    int
+	calls    [][]callRec
+	ctl      []ctlRec
+	ctl2     []ctlRec
+	pubsDone []bool
+	ctlDone  [2]bool
+	mu       sync.Mutex // real mutex: OnPubTimeout is invoked from several library goroutines
+	touts    []delivery
 }
 
 func (r *run) receiver(st *subState) {
@@ -369,6 +407,8 @@ func (H) Execute(scAny any, cfg simrt.Config, st *core.Stats) (*simrt.Outcome, *
 		}
 	}
 	r.calls = make([][]callRec, len(sc.Pubs))
+	r.pubsDone = make([]bool, len(sc.Pubs))
+	r.ctlDone = [2]bool{len(sc.Ctl) == 0, len(sc.Ctl2) == 0}
 	s := simrt.New(cfg)
 	s.Go(func() {
 		for _, sp := range sc.Subs {
@@ -410,6 +450,34 @@ func (H) Execute(scAny any, cfg simrt.Config, st *core.Stats) (*simrt.Outcome, *
 					cr.ret = simrt.Stamp()
 					cr.returned = true
 				}
+				r.pubsDone[p] = true
+			})
+		}
+		if len(sc.Ctl2) > 0 {
+			simrt.Go(func() {
+				for _, op := range sc.Ctl2 {
+					for d := 0; d <= op.Delay; d++ {
+						simrt.Yield()
+					}
+					r.ctl2 = append(r.ctl2, ctlRec{op: op})
+					cr := &r.ctl2[len(r.ctl2)-1]
+					cr.inv = simrt.Stamp()
+					st := r.subs[op.Target]
+					if st.removedInv >= 0 {
+						cr.want = chans.ErrAlreadyUnsubscribed
+					} else {
+						st.removedInv = cr.inv
+						simrt.Count("fault.unsub", 1)
+						simrt.Count("fault.unsub_overlapping", 1)
+					}
+					cr.err = r.ps.Unsub(st.ch)
+					if st.removedRet < 0 {
+						st.removedRet = simrt.Stamp()
+					}
+					cr.ret = simrt.Stamp()
+					cr.done = true
+				}
+				r.ctlDone[1] = true
 			})
 		}
 		if len(sc.Ctl) > 0 {
@@ -470,6 +538,7 @@ func (H) Execute(scAny any, cfg simrt.Config, st *core.Stats) (*simrt.Outcome, *
 					cr.ret = simrt.Stamp()
 					cr.done = true
 				}
+				r.ctlDone[0] = true
 			})
 		}
 	})
@@ -506,8 +575,22 @@ const inf = int64(1) << 50
 
 func (r *run) check(out *simrt.Outcome, st *core.Stats) *core.Violation {
 	sc := r.sc
+	// with a positive PubTimeoutAfter every hand-off ends within the timeout, so no
+	// publish, subscribe or unsubscribe call can be blocked when the run has ended
+	if sc.Timeout > 0 {
+		for p, d := range r.pubsDone {
+			if !d {
+				return &core.Violation{Signature: "blocked-despite-timeout", Detail: fmt.Sprintf("publisher %d never finished although PubTimeoutAfter is %v: %s", p, time.Duration(sc.Timeout), strings.Join(out.StuckTasks, ", "))}
+			}
+		}
+		for k, d := range r.ctlDone {
+			if !d {
+				return &core.Violation{Signature: "blocked-despite-timeout", Detail: fmt.Sprintf("control task %d (Sub/Unsub) never finished although PubTimeoutAfter is %v: %s", k, time.Duration(sc.Timeout), strings.Join(out.StuckTasks, ", "))}
+			}
+		}
+	}
 	// errors
-	for _, c := range r.ctl {
+	for _, c := range append(append([]ctlRec(nil), r.ctl...), r.ctl2...) {
 		if !c.done {
 			continue
 		}
